@@ -32,6 +32,10 @@ def trimSpace (s : Str') : Str' := dropTrailSp (s.dropWhile goSpace)
 /-- the captured value of a step that printed `out` -/
 def capture (out : Str') : Str' := trimSpace out
 
+/-- setupExec allocates a NEW capture buffer for every execution of the node (retry, repeat): the value of a
+    node that ran several times is the trimmed stdout of its LAST execution only -/
+def captureRun (execs : List Str') : Str' := capture (execs.getLast?.getD [])
+
 /-- the string stored in the run's output map under `name` -/
 def stored (name out : Str') : Str' := name ++ '=' :: capture out
 
